@@ -31,7 +31,9 @@ STD_TRAITS = sorted(os_traits.get_traits())
 _APP = _MODEL = None
 
 BAD_NAMES = ['CUSTOM_', 'CUSTOM_a', 'CUSTOM_A-B', 'custom_x', 'VCPU2', 'CUSTOM_A B', 'CUSTOM_' + 'A' * 249, 'CUSTOM_' + 'A' * 248,
-             'CUSTOM_Ä', 'CUSTOM_X\n', 'CUSTOM_X\r', 'CUSTOM__', 'CUSTOM_0', ' CUSTOM_X', 'CUSTOM_X ', 'CUSTOM_X\x00']
+             'CUSTOM_Ä', 'CUSTOM_X\n', 'CUSTOM_X\r', 'CUSTOM__', 'CUSTOM_0', ' CUSTOM_X', 'CUSTOM_X ', 'CUSTOM_X\x00',
+             # names that are not plain text for whoever pastes them into JSON, SQL LIKE or a URL
+             'CUSTOM_A","name":"CUSTOM_B', 'CUSTOM_A"', 'CUSTOM_A\\', 'CUSTOM_A\\u0042', 'CUSTOM_%', 'CUSTOM_A/B', 'CUSTOM_A?x=1']
 
 
 def _init():
